@@ -7,7 +7,7 @@ from vmm.gen import search as G
 from vmm.ref import searchlib as L
 
 ID = 'C15'
-RULE = ('Hypothesis long frames (<=7 geos x <=14 dates, missing cells up to ~20%, optionally a geo with no rows, int/str IDs, '
+RULE = ('Hypothesis long frames (<=7 geos x <=14 dates, missing cells up to ~20% (absent rows, or rows present with a NaN value), optionally a geo with no rows, int/str IDs, '
         'shuffled rows, response column name, extra column) x eligibility in {none, = data, subset of data, superset with '
         'excludable extras, superset with a non-excludable extra} x a drawn ordered sub-list of the assignable geos as '
         'geo_index (optionally with a non-assignable geo; in half of the cases after the index had been set to another list and used) x drawn index sets. Oracle: independent pivot, means, shares, '
@@ -34,6 +34,7 @@ def _spec(draw):
     g = draw(st.integers(0, n_g - 1))
     miss = [m for m in miss if m[0] != g] + [[g, d] for d in range(n_d)]      # a geo absent from the data
   panel['missing'] = miss
+  panel['missing_as_nan'] = draw(st.booleans())
   elig = draw(G.eligibility_spec(panel['ids']))
   return {'panel': panel, 'elig': elig, 'params': {'iroas': 1.0, 'n_designs': 1},
           'index': {'order_seed': draw(st.integers(0, 10 ** 6)), 'k': draw(st.integers(1, 7)), 'bad': draw(st.integers(0, 5)) == 0, 'twice': draw(st.booleans())},
